@@ -76,8 +76,8 @@ def entryStrs (kv : String × Val) : List String :=
   | .seq xs => xs.map (fun x => kv.1 ++ "=" ++ fmtV x)
   | v => [kv.1 ++ "=" ++ fmtV v]
 
-/-- `var seq []any` stays nil when nothing is appended -/
-def nilIfEmpty (l : List Val) : Option (List Val) := if l.isEmpty then none else some l
+/-- since "fix: convertIntoSequence turns an empty mapping into an empty sequence" the mapping branch never yields a nil slice -/
+def nilIfEmpty (l : List Val) : Option (List Val) := some l
 
 /-- `convertIntoSequence`: `none` is Go's nil slice -/
 def intoSeq : Val → Option (List Val)
@@ -232,8 +232,12 @@ def hostsDecode : Val → Except DecErr (AL (List String))
 def hostsAsList (sep : String) (m : AL (List String)) : List String :=
   m.flatMap (fun kv => kv.2.map (fun ip => kv.1 ++ sep ++ ip))
 
-/-- `MarshalYAML` / `MarshalJSON`: `AsList("=")` then `sort.Strings` -/
-def hostsRender (m : AL (List String)) : List String := sortStrs (hostsAsList "=" m)
+/-- the order in which `sortedList` visits the hosts: by `host=` -/
+def hostLe (a b : String × List String) : Bool := decide (a.1 ++ "=" ≤ b.1 ++ "=")
+
+/-- `MarshalYAML` / `MarshalJSON` (`sortedList`, since the C09 repair): the hosts sorted by `host=`, each host's
+addresses in their own order (before: `AsList("=")` then `sort.Strings` over whole lines) -/
+def hostsRender (m : AL (List String)) : List String := hostsAsList "=" (isort hostLe m)
 
 /-! ## `Mapping`, `MappingWithEquals` -/
 
